@@ -408,6 +408,25 @@ Definition batch_put (d : db) (b : batch) (k v : bytes) : db * batch * option ee
                       (b_cached b + new - old), None, [])
   end.
 
+(* Batch.Put while the operating system refuses the write of an overflow flush: flushStaged rotates first when the
+   active file cannot take the staged records, then FlushStaged reports the error - nothing reached the file or the
+   index, the staged records stay staged, the new record is not staged.  Some true: the flush was due and failed;
+   Some false is never returned; None: no flush was due, the call is an ordinary Put. *)
+Definition batch_put_refused (d : db) (b : batch) (k v : bytes) : option (db * list event) :=
+  if len k =? 0 then None else
+  if b_committed b then None else
+  let fs := c_fsize (d_cfg d) in
+  let due :=
+    match staged_find (b_staged b) k with
+    | None => fs <? b_cached b + disk_size_estimate (len k) (len v) + maxFinRecord
+    | Some r => fs <? b_cached b + disk_size_estimate (len k) (len v)
+                      - disk_size_estimate (len (r_key r)) (len (r_value r)) + maxFinRecord
+    end in
+  if due then
+    let sz := lf_size (d_active d) in
+    Some (if (0 <? sz) && (fs <? sz + b_cached b + maxFinRecord) then db_rotate d else (d, []))
+  else None.
+
 (* Batch.Get *)
 Definition batch_get (d : db) (b : batch) (k : bytes) : db * (bytes + eerr) * list event :=
   if len k =? 0 then (d, inr EKeyIsEmpty, []) else
